@@ -1,6 +1,7 @@
 import Robust.Irc.Proofs.H2Base
 /-! TOPIC -/
 namespace Robust.Irc
+open Rd
 open AMap
 
 theorem cmdTopic_inert {c c' : Ctx} {sid : Id} {m : IrcMsg} (hw : WInvCore c.st)
